@@ -3,8 +3,8 @@ package main
 func init() {
 	plans["C13"] = Plan{Pkg: pkg("C13"), Steps: []Step{
 		// hostile peer -> gopcua server channels; panics are recovered in the harness goroutine
-		{Run: "TestServer", Quick: 2400, Thorough: 120000, QShards: 16, TShards: 16, MemMB: 8192},
+		{Run: "TestServer", Quick: 3200, Thorough: 60000, QShards: 16, TShards: 16, MemMB: 8192},
 		// hostile peer -> gopcua client channels; a dispatcher panic ends the child, the journal names the case
-		{Run: "TestClient", Quick: 1200, Thorough: 60000, QShards: 16, TShards: 16, MemMB: 8192},
+		{Run: "TestClient", Quick: 1600, Thorough: 30000, QShards: 16, TShards: 16, MemMB: 8192},
 	}}
 }
